@@ -146,12 +146,12 @@ def per_type(ctx, config, w):
 
 
 def run(ctx):
-    for config in ("f64-all", "dec-all"):
+    for config in ("f64-all", "dec-all") + (("f64-nostd", "dec-nostd") if ctx.tier == "thorough" else ()):
         w = ws.load(config)
         ctx.configs.append(config)
         generic_rules(ctx, config, w.U)
         n = per_type(ctx, config, w)
-        ctx.floor("%s: generated rate operators" % config, n, 2 * (18 if config == "f64-all" else 14))
+        ctx.floor("%s: generated rate operators" % config, n, 2 * {"f64-all": 18, "dec-all": 14}.get(config, 14))
     ctx.rule_text = "record axioms of Rate, reciprocal swap + involution by composition, value-flow forms of Rate*q (generic) and q*Rate, q/Rate per quantity type, q/r == q*reciprocal(r)"
     ctx.trusted = ["rustc THIR construction and resolution", "the like-quantity ratio q / as_qty(u) is C03 (reference-unit types) / C10 (others)", "Unit::as_qty is C09"]
     ctx.assumptions = ["size of the rounding error not decided"]
